@@ -407,7 +407,7 @@ def _per_axis(kind, classes, variant):
                         prove_rational_equal(c, f"chi_from_coefficients[{j},{j}]==declared", chi.at_index((4 * j,)), P.chi(j, om), relations=P.relations, nonzero_terms=P.den_nz(j, om))
                     else:
                         # entry (j,k) runs on the oscillator of row j: finite wherever that row's model is
-                        prove_rational_equal(c, f"chi_from_coefficients[{j},{k}]==0", chi.at_index((3 * j + k,)), 0, nonzero_terms=P.den_nz(j, om))
+                        prove_rational_equal(c, f"chi_from_coefficients[{j},{k}]==0", chi.at_index((3 * j + k,)), 0, relations=P.relations, nonzero_terms=P.den_nz(j, om))
         for ax in range(n_ax):
             nzt = P.den_nz(ax, om)
             want = P.chi(ax, om)
@@ -567,7 +567,7 @@ def _zero_padding(num_components, coupling_components):
                     else:
                         want = want + (P.chi(j, om) if j == k else 0)
                         nzt += P.den_nz(j, om)
-                prove_rational_equal(c, f"{name}/chi[{comp}]==sum_of_own_poles", chi.at_index((comp,)), want, nonzero_terms=nzt)
+                prove_rational_equal(c, f"{name}/chi[{comp}]==sum_of_own_poles", chi.at_index((comp,)), want, relations=[r for P in ps for r in P.relations], nonzero_terms=nzt)
 
     return body
 
